@@ -448,7 +448,8 @@ static void handle(char *line)
 		} else if (!strcmp(t[2], "leeway") && n >= 5) { printf("rc=%d", jwt_checker_time_leeway(ck, claim_of(t[3]), (time_t)atoll(t[4])) ? 1 : 0);
 		} else if (!strcmp(t[2], "setcb") && n >= 4) {
 			int rc;
-			if (!strcmp(t[3], "-")) { g_ckcb[c].prog[0] = 0; rc = jwt_checker_setcb(ck, NULL, NULL); }
+			if (!strcmp(t[3], "@ctx")) rc = jwt_checker_setcb(ck, NULL, &g_ckcb[c]);        /* context only: an installed callback stays */
+			else if (!strcmp(t[3], "-")) { g_ckcb[c].prog[0] = 0; rc = jwt_checker_setcb(ck, NULL, NULL); }
 			else { strncpy(g_ckcb[c].prog, t[3], sizeof(g_ckcb[c].prog) - 1); rc = jwt_checker_setcb(ck, run_cb, &g_ckcb[c]); }
 			printf("rc=%d", rc ? 1 : 0);
 		} else if (!strcmp(t[2], "verify") && n >= 4) {
@@ -482,7 +483,8 @@ static void handle(char *line)
 		} else if (!strcmp(t[2], "offset") && n >= 5) { printf("rc=%d", jwt_builder_time_offset(bl, claim_of(t[3]), (time_t)atoll(t[4])) ? 1 : 0);
 		} else if (!strcmp(t[2], "setcb") && n >= 4) {
 			int rc;
-			if (!strcmp(t[3], "-")) { g_blcb[b].prog[0] = 0; rc = jwt_builder_setcb(bl, NULL, NULL); }
+			if (!strcmp(t[3], "@ctx")) rc = jwt_builder_setcb(bl, NULL, &g_blcb[b]);
+			else if (!strcmp(t[3], "-")) { g_blcb[b].prog[0] = 0; rc = jwt_builder_setcb(bl, NULL, NULL); }
 			else { strncpy(g_blcb[b].prog, t[3], sizeof(g_blcb[b].prog) - 1); rc = jwt_builder_setcb(bl, run_cb, &g_blcb[b]); }
 			printf("rc=%d", rc ? 1 : 0);
 		} else if ((!strcmp(t[2], "hset") || !strcmp(t[2], "cset")) && n >= 7) { op_set(obs, t[2][0] == 'h' ? 0 : 1, bl, t[3], t[4], t[5], t[6]); fputs(obs, stdout);
